@@ -30,7 +30,7 @@ pub struct GenDict {
 fn rand_cost(rng: &mut Rng) -> i16 {
     match rng.below(20) {
         0 => 32767,
-        1 => -32767,
+        1 => if rng.chance(1, 2) { -32767 } else { -32768 },
         2 => 0,
         3 => -1,
         _ => rng.range(-2000, 8000) as i16,
@@ -69,6 +69,21 @@ impl GenDict {
                 split_a: vec![],
                 split_b: vec![],
             });
+        }
+        // homographs that follow each other in the lexicon: same key, often the same left id, costs far apart (more than an i16 apart
+        // in some), so that whatever is shared between the candidates of one span is shared between very different candidates
+        if rng.chance(2, 3) {
+            for _ in 0..1 + rng.below(2) {
+                let src = words[rng.below(words.len())].clone();
+                for _ in 0..1 + rng.below(2) {
+                    let mut h = src.clone();
+                    if rng.chance(1, 3) { h.lid = rng.below(idmax) as i16; }
+                    if rng.chance(1, 2) { h.rid = rng.below(idmax) as i16; }
+                    h.cost = *rng.pick(&[20000i16, -20000, 32767, -32768, -30000, 30000, src.cost]);
+                    h.pos = rng.below(POS.len());
+                    words.push(h);
+                }
+            }
         }
         let oov = (rng.below(idmax) as i16, rng.below(idmax) as i16, rng.range(1000, 20000) as i16);
         GenDict { nl, nr, conn, words, oov }
